@@ -189,15 +189,19 @@ impl IrSpanned<StmtCompiled> {
         compiler: &StmtCompileContext,
         bc: &mut BcWriter,
     ) {
-        bc.write_iter_stop(span);
+        // The returned expression is evaluated while the enclosing loops are still running
+        // (their containers are still locked): the iterators are stopped afterwards.
         if compiler.has_return_type {
             expr.write_bc_cb(bc, |slot, bc| {
+                bc.write_iter_stop(span);
                 bc.write_instr::<InstrReturnCheckType>(span, slot);
             });
         } else if let Some(value) = expr.as_value() {
+            bc.write_iter_stop(span);
             bc.write_instr::<InstrReturnConst>(span, value);
         } else {
             expr.write_bc_cb(bc, |slot, bc| {
+                bc.write_iter_stop(span);
                 bc.write_instr::<InstrReturn>(span, slot);
             });
         }
